@@ -1,7 +1,7 @@
 #!/bin/bash
 # try_mutants.sh <pid>... : for each /tmp/wt9-<pid>/_seed/patch<k>.diff: apply to /repo, run ./check <pid>, revert; one line per mutant
 for id in "$@"; do for k in 1 2 3; do
-  P=/tmp/wt9-$id/_seed/patch$k.diff; [ -f $P ] || continue
+  P=${WTP:-/tmp/wt9}-$id/_seed/patch$k.diff; [ -f $P ] || continue
   cd /repo; git apply $P 2>/dev/null || { echo "$id m$k patch does not apply"; continue; }
   out=$(cd /verif && ./check $id 2>&1); rc=$?
   git checkout -q -- .
